@@ -125,6 +125,21 @@ def eq_values(I, st, a, b):
             # a complete string against a template: it must begin / end with the template's known beginning / ending
             if (f.parts[0][0] == "lit" and not s_.startswith(f.parts[0][1])) or (f.parts[-1][0] == "lit" and not s_.endswith(f.parts[-1][1])):
                 return False
+            ints = [p for p in f.parts if p[0] == "int"]
+            if len(ints) == 1 and len(f.parts) <= 3:
+                # prefix + ONE integer field + suffix: equal iff the middle of the string is the canonical rendering of an
+                # integer under the field's width / fill, and the field has that value
+                pre = f.parts[0][1] if f.parts[0][0] == "lit" else ""
+                suf = f.parts[-1][1] if f.parts[-1][0] == "lit" else ""
+                if len(pre) + len(suf) > len(s_):
+                    return False
+                mid = s_[len(pre):len(s_) - len(suf)]
+                _, term, width, fill = ints[0]
+                spec_ = ("0" if fill == "0" else "") + (str(width) if width else "") + "d"
+                import re as _re
+                if _re.fullmatch(r" *-?[0-9]+", mid) is None or format(int(mid), spec_) != mid:
+                    return False
+                return term == int(mid)
         if isinstance(a, Opaque) or isinstance(b, Opaque):
             raise Unsupported("== between a string and an uninterpreted value (%s)" % (a.desc if isinstance(a, Opaque) else b.desc))
         return isinstance(a, str) and isinstance(b, str) and a == b
